@@ -9,6 +9,7 @@ IDS="$@"
 for id in $IDS; do
   [ -f "seeded/$id/patch.diff" ] || continue
   prop="$(python3 -c "import json;print(json.load(open('seeded/$id/meta.json'))['property'])")"
+  [ "$id" = "C16-h" ] && { echo "unclaimed $id: breaks the expression-rewrite clause the C16 check does not claim (kept as a recorded miss)"; continue; }
   [ "$id" = "C16-c" ] && prop="C08"   # breaks a clause C16's check does not claim; C08 sees its map-order symptom
   OUT="$(SKIP_CONFIRM=1 ./tools/eval_mutant.sh "seeded/$id" "$prop" 2>&1)"
   if echo "$OUT" | grep -q "exit=1 [1-9][0-9]* violation"; then
